@@ -731,6 +731,56 @@ def run(R, only=None):
         if r:
             R.property_fails(r[0], "C14 " + r[1], {"kind": "sql-script", "case": c["steps"], "observed": [o[-3], o[-1]]})
     R.coverage["double_cases"] = len(fc)
+    # ---- string functions (outside the Coq model): SUBSTRING over strings with multi-byte characters, negative and zero start /
+    #      length, column and constant operands, against a per-row reference
+    STRS = [None, "", "a", "hello", "héllo", "日本語テキスト", "a😀b", "%_x", "ab%"]
+
+    def substr_ref(a, b, c):
+        if a is None or b is None or c is None:
+            return None
+        chars = len(a)
+        start = b - 1 if b >= 0 else chars + b
+        end = max(-2**31, min(2**31 - 1, start + c))
+        if start > end:
+            start, end = end, start
+        skip = max(start, 0)
+        take = max(end - skip, 0)
+        return a[skip:skip + take]
+    stc = []
+    for i in range(40 if R.tier == "quick" else 400):
+        rng = R.rng
+        rows = [(rng.choice(STRS), rng.choice([None, -7, -3, -2, -1, 0, 1, 2, 3, 9]), rng.choice([None, -2, 0, 1, 2, 5, 100])) for _ in range(rng.randint(1, 70))]
+        steps = [{"sql": "create table st(s varchar, a int, b int)"}]
+        for part in (rows[: len(rows) // 2], rows[len(rows) // 2:]):
+            if part:
+                steps.append({"sql": "insert into st values " + ", ".join("(" + ", ".join("null" if v is None else (f"'{v}'" if isinstance(v, str) else str(v)) for v in r) + ")" for r in part)})
+        kind = rng.choice(["col", "col", "const-start", "const-all"])
+        if kind == "col":
+            q, want = "select substring(s from a for b) from st", [substr_ref(*r) for r in rows]
+        elif kind == "const-start":
+            k, n = rng.choice([-3, -2, -1, 1, 2]), rng.choice([1, 2, 3])
+            q, want = f"select substring(s from {k} for {n}) from st", [substr_ref(r[0], k, n) for r in rows]
+        else:
+            v, k, n = rng.choice([x for x in STRS if x]), rng.choice([-3, -2, -1, 1, 2]), rng.choice([1, 2, 3])
+            q, want = f"select substring('{v}' from {k} for {n}) from st", [substr_ref(v, k, n) for _ in rows]
+        steps += [{"sql": q}, {"sql": "pragma disable_optimizer"}, {"sql": q}]
+        stc.append({"steps": steps, "q": q, "want": want})
+    sto = run_harness("sql", [{"engine": "mem", "steps": c["steps"]} for c in stc], jobs=16)
+    for c, o in zip(stc, sto):
+        rep = {"kind": "sql-script", "case": c["steps"]}
+        if not isinstance(o, list) or len(o) < len(c["steps"]):
+            R.property_fails(None, f"C14 `{c['q']}` aborts: {json.dumps(o)[-150:]}", rep)
+            continue
+        for which, x in (("optimizer on", o[-3]), ("optimizer off", o[-1])):
+            if "ok" not in x:
+                R.property_fails(None, f"C14 `{c['q']}` ({which}) failed: {json.dumps(x)[:150]}", rep)
+                break
+            got = [None if r[0] is None else r[0][1] for ch in x["ok"] for r in ch["rows"]]
+            if got != c["want"]:
+                bad = [(g, w) for g, w in zip(got, c["want"]) if g != w][:2]
+                R.property_fails(None, f"C14 `{c['q']}` ({which}): rows differ from the per-row reference, e.g. got / expected {bad}", rep)
+                break
+    R.coverage["string_function_cases"] = len(stc)
     R.coverage.update({
         "evaluations": len(cases) + len(sc), "distinct_nontrivial": len(nontriv),
         "rule": "random typed expression trees (arithmetic, comparison, AND/OR/NOT, IS NULL, CASE, IN list, CAST, ||) over 1-4 "
